@@ -486,6 +486,11 @@ class ThreadPoolServer(Server):
     def _accept_method(self, sock):
         '''Implementation of the accept method : only pushes the work to the internal queue.
         In case the queue is full, raises an AsynResultTimeout error'''
+        # authenticating may block for as long as the client pleases: keep it off the accept loop,
+        # otherwise one stalling client stops the server from accepting anybody else
+        spawn(self._accept_client, sock)
+
+    def _accept_client(self, sock):
         try:
             addrinfo = None
             # authenticate and build connection object
